@@ -180,6 +180,18 @@ fn vm_case(ctx: &mut Ctx, case: &g::Case, tag: &str) {
         let out = ctx.guard(|| run_resumed(&mut vm, case, max + 10));
         match out { Ok(o) => check(ctx, "breakpoints", false, &bps, None, o), Err(m) => ctx.oracle_fail("panic-breakpoints", tag, &m) }
     }
+    // (4b) single stepping AND breakpoints at once (on visited locations: both rules of eval_state apply to one location)
+    for k in 0..ctx.n(1, 2) {
+        let mut bps: Vec<(ContractId, u64)> = vec![];
+        if k == 0 { if let Some((c, p)) = trace.first() { bps.push((c.unwrap_or_default(), *p)); } }
+        for _ in 0..ctx.rng.range(1, 3) { if !visited.is_empty() { let b = *ctx.rng.pick(&visited); if !bps.contains(&b) { bps.push(b); } } }
+        if bps.is_empty() { continue; }
+        let mut vm = case.fresh_vm();
+        vm.set_single_stepping(true);
+        for (c, pc) in &bps { vm.set_breakpoint(Breakpoint::new(*c, pc / 4)); }
+        let out = ctx.guard(|| run_resumed(&mut vm, case, max + 10));
+        match out { Ok(o) => check(ctx, "single-step+breakpoints", true, &bps, None, o), Err(m) => ctx.oracle_fail("panic-single-step+breakpoints", tag, &m) }
+    }
     // (5) abandoned session first: breakpoint on the first location, stop there, then transact again on the same VM
     if let Some((c0, p0)) = trace.first().map(|(c, p)| (c.unwrap_or_default(), *p)) {
         let mut bps = vec![(c0, p0)];
@@ -225,7 +237,17 @@ fn debugger_api(ctx: &mut Ctx) {
                 0 => { let b = ctx.rng.chance(1, 2); d.set_single_stepping(b); (format!("deb ss {}", b as u8), "ok".to_string()) }
                 1 | 2 => { d.set_breakpoint(Breakpoint::new(c, pcw)); (format!("deb bp {} {}", hex(c.as_ref()), pcw * 4), "ok".into()) }
                 3 => { d.remove_breakpoint(&Breakpoint::new(c, pcw)); (format!("deb rm {} {}", hex(c.as_ref()), pcw * 4), "ok".into()) }
-                4 => { if ctx.rng.chance(1, 4) { d.clear_breakpoints(); ("deb clear".to_string(), "ok".into()) } else { (format!("deb nop"), "ok".into()) } }
+                4 => { if ctx.rng.chance(1, 4) { d.clear_breakpoints(); ("deb clear".to_string(), "ok".into()) } else {
+                    // the resume situation: the last reported state is an event at this very location (with or without a
+                    // breakpoint on it, stepping or not); the evaluation follows as the next operation
+                    if ctx.rng.chance(1, 2) { d.set_breakpoint(Breakpoint::new(c, pcw)); ctx.emit(&format!("deb bp {} {}", hex(c.as_ref()), pcw * 4), &format!("ok a={} s={} l={}", d.is_active() as u8, d.single_stepping() as u8, st_str(d.last_state()))); }
+                    let s = ProgramState::RunProgram(DebugEval::Breakpoint(Breakpoint::new(c, pcw)));
+                    d.set_last_state(s);
+                    ctx.emit(&format!("deb last {}", st_str(&Some(s))), &format!("ok a={} s={} l={}", d.is_active() as u8, d.single_stepping() as u8, st_str(d.last_state())));
+                    let e = d.eval_state(Some(&c), pcw * 4);
+                    ctx.count("deb.resume-at-reported-location");
+                    ctx.count(if matches!(e, DebugEval::Continue) { "deb.eval.continue" } else { "deb.eval.breakpoint" });
+                    (format!("deb eval {} {}", hex(c.as_ref()), pcw * 4), ev_str(&e)) } }
                 5 | 6 | 7 => {
                     let none = ctx.rng.chance(1, 4);
                     let e = d.eval_state(if none { None } else { Some(&c) }, pcw * 4);
